@@ -33,7 +33,7 @@ theorem hab (h : ReplArgs f a b q vq l A r t) : a ≠ b := by
   intro e
   apply h.hbA
   rw [← e, ← h.ha]
-  exact handle_mem_handles A
+  exact fs_handle_mem_handles A
 
 /-- `a` does not lie in the replacing subtree (its parent does not). -/
 theorem hat (h : ReplArgs f a b q vq l A r t) : a ∉ handles t := by
